@@ -352,6 +352,7 @@ def run(ctx):
     if (int(m.total_bits), int(m.error_bits)) != (2, 1):
         ctx.violation("C16/BitErrorRate/shape-mismatch", "rejected update changed the counters", {})
     # blocks are cut from each item's flattened elements: block sizes that divide the item but not its last dimension included
+    md_exprs, md_meta = [], []
     for shape in ((2, 3, 4), (3, 2, 2, 2), (2, 2, 3), (1, 2, 6), (2, 3, 2), (2, 2, 5)):
         per = int(np.prod(shape[1:]))
         for B in [b_ for b_ in (2, 3, 4, 5, 6) if per % b_ == 0]:
@@ -376,10 +377,22 @@ def run(ctx):
                 except Exception as ex:
                     ctx.violation("C16/BlockErrorRate/forward/multi-dim", "BLER on shape %s with block_size %d (a divisor of the %d elements per item) raised %s: %s" % (shape, B, per, type(ex).__name__, str(ex)[:80]), {"shape": list(shape), "B": B})
                     break
+                if len(md_exprs) < (40 if quick else 400):
+                    it_x, it_y = x.reshape(shape[0], -1, shape[-1]).tolist(), y.reshape(shape[0], -1, shape[-1]).tolist()
+                    md_exprs.append("bler_multidim %s [%s]" % (cnat(B), "; ".join("[" + "; ".join(cpairs(rx, ry) for rx, ry in zip(ix, iy)) + "]" for ix, iy in zip(it_x, it_y))))
+                    md_meta.append((list(shape), B, bl, bs))
                 if abs(bl - r[1] / r[0]) > 1e-6 or abs(bs - r[1] / r[0]) > 1e-6:
                     ctx.violation("C16/BlockErrorRate/forward/multi-dim", "BLER on shape %s, block_size %d, differences at flat positions %s: one-shot %r, streaming %r, reference %d/%d" % (
                         shape, B, (x != y).reshape(-1).nonzero().reshape(-1).tolist(), bl, bs, r[1], r[0]), {"shape": list(shape), "B": B})
                     break
+    if ok and md_exprs:
+        # T: the model's count on the flattened items (Metrics/C16Cases.v bler_multidim), evaluated by the kernel
+        res = ctx.coq_eval("multidim", HDR, md_exprs, per_file=60, timeout=900)
+        for (shape, B, bl, bs), mv in zip(md_meta, res):
+            ctx.count("multidim-correspondence")
+            if len(mv) != 2 or abs(bl - (mv[0] - 1) / mv[1]) > 1e-6 or abs(bs - (mv[0] - 1) / mv[1]) > 1e-6:
+                ctx.broken.append("correspondence multi-dimensional BLER shape %s block_size %d: implementation %r / %r, model %s" % (shape, B, bl, bs, mv))
+                break
     # ------------------------------------------------------------------ the same tensor objects used again, in the dtypes a caller may hold bits in
     for dt in (torch.bool, torch.uint8, torch.int32, torch.int64, torch.float32, torch.float64):
         xb_ = torch.tensor([[1, 0, 1, 1, 0, 0, 1, 0], [0, 0, 1, 0, 1, 1, 1, 0]]).to(dt)
